@@ -69,6 +69,8 @@ type Job struct {
 	NoLeakCheck  bool
 	MaxSteps     int64
 	Solver       string // primary solver for this job: "" / "z3" / "cvc5"
+	MaxPaths     int      // path budget of this job (0 = config default)
+	MaxDecisions int      // decisions per path; exceeding it counts as an exhausted step budget (0 = unlimited)
 	Expect       []string // substrings of reach markers that some path must hit (else the job is vacuous)
 	ExpectNot    []string // substrings of reach markers no path may hit (the job does not exercise what it says)
 }
@@ -257,10 +259,14 @@ func (e *Explorer) worker(id int) {
 		jr := it.jr
 		skip := false
 		jr.mu.Lock()
-		if jr.Paths >= e.Cfg.MaxPathsPerJob {
+		maxPaths := e.Cfg.MaxPathsPerJob
+		if jr.Job.MaxPaths > 0 {
+			maxPaths = jr.Job.MaxPaths
+		}
+		if jr.Paths >= maxPaths {
 			skip = true
 			if len(jr.Incomplete) == 0 || !strings.HasPrefix(jr.Incomplete[0], "path budget") {
-				jr.Incomplete = append([]string{fmt.Sprintf("path budget %d exhausted", e.Cfg.MaxPathsPerJob)}, jr.Incomplete...)
+				jr.Incomplete = append([]string{fmt.Sprintf("path budget %d exhausted", maxPaths)}, jr.Incomplete...)
 			}
 		}
 		if !e.Cfg.Deadline.IsZero() && time.Now().After(e.Cfg.Deadline) {
@@ -486,7 +492,7 @@ func (i *interpreter) runPath(job *Job, prefix []Decision) (p *pathState) {
 					p.status = "incomplete: step budget exceeded"
 					if i.job != nil {
 						i.sched.aborting = false
-						i.findingHere("steps", "steps", fmt.Sprintf("path exceeded the step budget of %d SSA instructions", p.maxSteps))
+						i.findingHere("steps", "steps", fmt.Sprintf("path exceeded the step budget of %d SSA instructions (or its decision budget) after %d steps and %d decisions", p.maxSteps, p.steps, len(p.dec)))
 					}
 				case reason == "deadlock":
 					p.status = "deadlock"
